@@ -145,9 +145,18 @@ func (s *fsrv) streamServe(c net.Conn, useTLS bool) {
 		}()
 		return
 	}
+	if s.f() == "read1stall" { // reads nothing for 300 ms, then exactly the first frame, then never again
+		time.Sleep(300 * time.Millisecond)
+		h := make([]byte, 2)
+		if _, err := io.ReadFull(c, h); err == nil {
+			io.CopyN(io.Discard, c, int64(binary.BigEndian.Uint16(h)))
+		}
+		return // the connection stays referenced (open) until the scenario ends
+	}
 	defer func() { s.conns.Delete(c) }()
 	var wm sync.Mutex
 	h := make([]byte, 2)
+	served := 0 // queries answered on this connection
 	for {
 		if _, err := io.ReadFull(c, h); err != nil {
 			if s.closeOnEOF.Load() {
@@ -181,7 +190,20 @@ func (s *fsrv) streamServe(c net.Conn, useTLS bool) {
 		case "garbage":
 			c.Write([]byte{0, 5, 1, 2, 3, 4, 5})
 			continue
+		case "garbage2nd":
+			// the first query of every connection is answered; the second one gets a well-framed message that
+			// does not decode (header announces five questions, none follows) and nothing else on this
+			// connection. New connections are healthy again.
+			if served == 1 {
+				served++
+				c.Write([]byte{0, 14, b[0], b[1], 0x81, 0x80, 0, 5, 0, 0, 0, 0, 0, 0, 7, 7})
+				continue
+			}
+			if served > 1 {
+				continue
+			}
 		}
+		served++
 		a := mkAnswer(b)
 		f := make([]byte, 2+len(a))
 		binary.BigEndian.PutUint16(f, uint16(len(a)))
@@ -499,7 +521,7 @@ func (s *fsrv) url() string {
 // one scenario: a fresh server + a fresh upstream built by the real NewUpstream
 func faultScenario(kind, fault string, rng *rand.Rand) {
 	sc := fmt.Sprintf("%s/%s", kind, fault)
-	smallBuffers.Store(fault == "sndbuf" || fault == "sndbuf2")
+	smallBuffers.Store(fault == "sndbuf" || fault == "sndbuf2" || fault == "sndbuf3")
 	s := newFsrv(kind)
 	defer s.close()
 	var dials atomic.Int32
@@ -509,7 +531,7 @@ func faultScenario(kind, fault string, rng *rand.Rand) {
 				return nil
 			}
 			dials.Add(1)
-			if fault == "sndbuf" || fault == "sndbuf2" {
+			if fault == "sndbuf" || fault == "sndbuf2" || fault == "sndbuf3" {
 				c.Control(func(fd uintptr) { syscall.SetsockoptInt(int(fd), syscall.SOL_SOCKET, syscall.SO_SNDBUF, 4096) })
 			}
 			return nil
@@ -585,6 +607,13 @@ func faultScenario(kind, fault string, rng *rand.Rand) {
 		for i := 0; i < 3; i++ {
 			one(1500*time.Millisecond, "reply")
 		}
+	case "garbage2nd":
+		// a reused connection fails (undecodable reply) while a healthy server is reachable: the exchange is
+		// retried on another connection and succeeds
+		s.fault.Store("garbage2nd")
+		for i := 0; i < 5; i++ {
+			one(1500*time.Millisecond, "reply")
+		}
 	case "restart":
 		// the server goes away without closing anything and comes back on the same address: the connection in the
 		// pool is dead (the new server answers its packets with stateless resets); exchanges get their replies
@@ -648,6 +677,39 @@ func faultScenario(kind, fault string, rng *rand.Rand) {
 		time.Sleep(250 * time.Millisecond)
 		wg.Add(1)
 		go func() { defer wg.Done(); one(400*time.Millisecond, "any") }()
+		wg.Wait()
+	case "sndbuf3":
+		// the peer reads slowly and then stalls: exchange A (2 s) blocks in its write, exchange B (600 ms) queues
+		// behind it on the same connection; the peer then reads exactly A's query. B's write starts when A's has
+		// finished and blocks for good - B still ends by ITS deadline.
+		s.fault.Store("read1stall")
+		big := func(d time.Duration) {
+			ex := int(exCtr.Add(1))
+			q := new(dns.Msg)
+			q.SetQuestion(exName(ex), dns.TypeA)
+			for k := 0; k < 250; k++ {
+				q.Extra = append(q.Extra, &dns.TXT{Hdr: dns.RR_Header{Name: ".", Rrtype: dns.TypeTXT, Class: 1}, Txt: []string{string(make([]byte, 240))}})
+			}
+			w, _ := q.Pack()
+			ctx, cancel := context.WithTimeout(context.Background(), d)
+			defer cancel()
+			dl, _ := ctx.Deadline()
+			tr.Emit("fx.begin", "ex", ex, "sc", sc, "deadline", tr.MsOf(dl), "want", "any")
+			r, err := u.ExchangeContext(ctx, w)
+			k, es := "reply", ""
+			if err != nil {
+				k, es = "error", err.Error()
+			}
+			if r != nil {
+				releaseMsg(r)
+			}
+			tr.Emit("fx.end", "ex", ex, "sc", sc, "kind", k, "err", es)
+		}
+		var wg sync.WaitGroup
+		wg.Add(2)
+		go func() { defer wg.Done(); big(2 * time.Second) }()
+		time.Sleep(100 * time.Millisecond)
+		go func() { defer wg.Done(); big(600 * time.Millisecond) }()
 		wg.Wait()
 	case "sndbuf":
 		// the peer accepts and never reads; queries are large: a blocking write must not outlive the deadline
@@ -731,12 +793,15 @@ func modeFault(thorough bool) {
 	onlyEvents = map[string]bool{} // hook and server events are not needed here
 	rng := rand.New(rand.NewSource(seed))
 	kinds := []string{"udp", "tcp", "tcp+pipeline", "tls", "tls+pipeline", "https", "quic", "h3"}
-	faults := []string{"refuse", "silent", "noreply", "half", "garbage", "fin", "rst", "stall", "stale", "kill", "sndbuf", "sndbuf2", "eol", "restart"}
+	faults := []string{"refuse", "silent", "noreply", "half", "garbage", "fin", "rst", "stall", "stale", "kill", "sndbuf", "sndbuf2", "sndbuf3", "eol", "restart", "garbage2nd"}
 	var wg sync.WaitGroup
 	sem := make(chan struct{}, 6)
 	for _, k := range kinds {
 		for _, f := range faults {
-			if k == "udp" && (f == "fin" || f == "rst" || f == "stale" || f == "stall" || f == "kill" || f == "sndbuf" || f == "sndbuf2") {
+			if k == "udp" && (f == "fin" || f == "rst" || f == "stale" || f == "stall" || f == "kill" || f == "sndbuf" || f == "sndbuf2" || f == "sndbuf3") {
+				continue
+			}
+			if f == "garbage2nd" && !(k == "tcp" || k == "tcp+pipeline" || k == "tls" || k == "tls+pipeline") {
 				continue
 			}
 			if f == "restart" && !(k == "quic" || k == "h3") {
@@ -745,7 +810,7 @@ func modeFault(thorough bool) {
 			if f == "stall" && !(strings.HasPrefix(k, "tls") || k == "https") {
 				continue
 			}
-			if f == "sndbuf2" && k != "tcp+pipeline" {
+			if (f == "sndbuf2" || f == "sndbuf3") && k != "tcp+pipeline" {
 				continue
 			}
 			if f == "sndbuf" && !(k == "tcp+pipeline" || k == "tcp") {
